@@ -221,7 +221,7 @@ func (c18) Gen(seed int64, tier string, emit func(any)) {
 	// 1. integer pairs: the core square and a boundary grid up to +-200
 	core := 20
 	if thorough {
-		core = 45
+		core = 30
 	}
 	for m := -core; m <= core; m++ {
 		for n := -core; n <= core; n++ {
@@ -245,9 +245,6 @@ func (c18) Gen(seed int64, tier string, emit func(any)) {
 				if n >= -200 && n <= 200 {
 					emit(c18Single(false, itoa(m), itoa(n)))
 				}
-			}
-			for _, n := range grid {
-				emit(c18Single((m+n)%2 == 0, itoa(m), itoa(n)))
 			}
 		}
 	}
@@ -274,7 +271,7 @@ func (c18) Gen(seed int64, tier string, emit func(any)) {
 	r := rand.New(rand.NewSource(seed))
 	nr := 700
 	if thorough {
-		nr = 9000
+		nr = 6000
 	}
 	smallBound := func() string {
 		v := r.Intn(13) - 3
